@@ -112,6 +112,9 @@ def run(job, streams=None):
         if fl == "cauth":
             sc["ckey"] = "rsa"
             sc["req_cert"] = True
+        if fl == "srp":
+            sc["flavour"] = "srp"
+            sc.pop("skey")
         if mods.get("sni"):
             sc["sni"] = mods["sni"]
         if mods.get("ems_off"):
@@ -205,12 +208,18 @@ def run(job, streams=None):
             # ---- connect
             sname = "AB"[ch.draw(4, "h.srv") == 1]
             ver = [(3, 3), (3, 4), (3, 1), (3, 2)][ch.draw(4, "h.ver")]
-            fl = ["plain", "cauth"][ch.draw(4, "h.fl") == 1]
+            fl = ["plain", "cauth", "plain", "plain", "srp"][
+                ch.draw(5, "h.fl")]
+            if fl == "srp" and (ver == (3, 4) or (
+                    stored and False)):
+                fl = "plain"
             offer = None
             mods = {}
             if stored and ch.draw(4, "h.offer") != 3:
                 offer = stored[ch.draw(len(stored), "h.which")]
                 ver = offer["ver"]
+                fl = offer.get("fl", fl) if fl == "srp" or \
+                    offer.get("fl") == "srp" else fl
                 m = ch.draw(8, "h.mod")
                 if m == 1:
                     mods["sni"] = "b.example"
@@ -234,6 +243,26 @@ def run(job, streams=None):
             if info["api_refused"]:
                 probes["api_refused"] = 1
                 continue
+            if info.get("ok"):
+                # whatever the resumption outcome: the client identity the
+                # server records must be what this handshake proved - the
+                # presented chain on a full handshake, the original's on a
+                # resumed one
+                want = None
+                if info["resumed_wire"] and offer:
+                    want = offer["client_chain"]
+                elif fl == "cauth":
+                    from sim import creds, views as _views
+                    want = _views.chain_digest(creds.load("client", "rsa")[0])
+                got = info["view_s"]["client_chain"]
+                if got != want and not (info["resumed_wire"] and
+                                        ver == (3, 4) and got is None):
+                    v("wrong_client_identity",
+                      "%s|%s" % ("resumed" if info["resumed_wire"] else
+                                 "full", "none_presented" if want is None
+                                 else "other"),
+                      "server attributes client chain %r, this handshake "
+                      "proved %r" % (got, want))
             if offer:
                 attempts += 1
                 judge_attempt(info, offer, S, mods, sname, v, probes, srv)
@@ -263,7 +292,8 @@ def run(job, streams=None):
                        "server_session": pair.s.conn.session,
                        "in_cache": S.use_cache and ver < (3, 4)
                        and not info["resumed_wire"],
-                       "resumed_conn": bool(info["resumed_wire"]),
+                       "resumed_conn": bool(info["resumed_wire"]), "fl": fl,
+                       "resumed_via": info.get("mech"),
                        "end": end}
                 if info["resumed_wire"] and offer:
                     # a resumed connection carries the original's identity
@@ -333,12 +363,15 @@ def run(job, streams=None):
             cl = copy.copy(src)
             s2 = src["session"]._clone()
             s2.sessionID = bytearray(s2.sessionID)
+            part = "id"
             if s2.tickets:
+                part = "ticket13"
                 s2.tickets = [copy.copy(t) for t in s2.tickets]
                 t0 = s2.tickets[0]
                 t0.ticket = bytearray(t0.ticket)
                 t0.ticket[ch.draw(len(t0.ticket), "h.tpos")] ^= 1
             elif s2.tls_1_0_tickets:
+                part = "ticket10"
                 s2.tls_1_0_tickets = [copy.copy(t)
                                       for t in s2.tls_1_0_tickets]
                 t0 = s2.tls_1_0_tickets[0]
@@ -347,7 +380,7 @@ def run(job, streams=None):
             elif s2.sessionID:
                 s2.sessionID[ch.draw(len(s2.sessionID), "h.tpos")] ^= 1
             cl["session"] = s2
-            cl["tampered"] = True
+            cl["tampered"] = part
             cl["idx"] = len(stored)
             stored.append(cl)
             probes["tampered"] = 1
@@ -402,7 +435,9 @@ def judge_attempt(info, offer, S, mods, sname, v, probes, srv):
     if sname != offer["server"]:
         reasons.append("foreign")
         probes["foreign"] = 1
-    if offer["tampered"]:
+    if offer["tampered"] and offer["tampered"] == mech:
+        # only the tampered element counts: a client may drop an (expired)
+        # tampered ticket and legitimately offer the intact session ID
         reasons.append("tampered")
     if mech in ("ticket10", "ticket13"):
         if not S.tickets:
@@ -433,7 +468,8 @@ def judge_attempt(info, offer, S, mods, sname, v, probes, srv):
             unsure = True
         if not offer["server_session"].resumable:
             cached = S.cache.entriesDict.get(bytes(sess.sessionID))
-            if cached is not None and cached is not offer["server_session"]:
+            if cached is not None and cached is not offer["server_session"] \
+                    and offer.get("resumed_via") == "ticket10":
                 reasons.append("invalidated by a fatal error on a "
                                "ticket-resumed connection (cache entry "
                                "untouched)")
@@ -450,6 +486,7 @@ def judge_attempt(info, offer, S, mods, sname, v, probes, srv):
     if mods:
         probes["changed_hello"] = 1
     ctx = "mechanism=%s reasons=%s soft=%s" % (mech, reasons, soft)
+    info["mech"] = mech if resumed else None
     if resumed:
         probes["resumed_" + mech] = 1
         if reasons and not unsure:
@@ -506,8 +543,10 @@ def judge_attempt(info, offer, S, mods, sname, v, probes, srv):
             elif not reasons and not soft:
                 e = info["oc"].exc if info["oc"].kind == "exc" else \
                     info["os"].exc
-                v("resume_attempt_failed", "%s|%s|%s" % (
-                    mech, type(e).__name__, getattr(e, "description", "")),
+                v("resume_attempt_failed", "%s|%s|%s|%s" % (
+                    mech, type(e).__name__, getattr(e, "description", ""),
+                    "srp" if info["pair"].scen.get("flavour") == "srp"
+                    else "cert"),
                   "honest resumption attempt broke the handshake: client=%r "
                   "server=%r (%s)" % (info["oc"].exc, info["os"].exc, ctx))
 
